@@ -35,7 +35,7 @@
 
 use std::fmt;
 
-use ahash::AHashMap as HashMap;
+use std::collections::HashMap; // VERIF MODEL: std map instead of ahash (never executed by a harness)
 use arrayvec::ArrayVec;
 use smallvec::SmallVec;
 
